@@ -3,7 +3,7 @@
 (* which a producer may publish (scalars, lists, flat / shaped arrays, with *)
 (* time axis, masked, quantities in equivalent / convertible / incompatible *)
 (* units), on a structured grid with data shape (2, 3), a scalar NoGrid and *)
-(* a vector NoGrid(1).  A case is [grid, form, pu, ou, iu]: payload units   *)
+(* a vector NoGrid(1).  A case is [grid, form, pu, ou, iu, om, st]: payload units *)
 (* pu ("" = plain numbers), output units ou, input units iu ("" = unset).   *)
 (* Lengths are in metres as exact rationals: m = 1, km = 1000, cm = 1/100,  *)
 (* "meter" an alias of m; s is a time.                                      *)
@@ -28,7 +28,7 @@ VectorForms == {"vec3", "vec3time", "matrix"}
 Units == {"m", "meter", "km", "cm", "s"}
 GridRForms == {"shaped", "timeaxis", "flat", "list"}
 
-Cases ==
+Cases0 ==
   {[grid |-> g, form |-> f, pu |-> pu, ou |-> ou, iu |-> iu, om |-> "flex"] :
      g \in {"g23"}, f \in GridForms, pu \in {"", "m", "km", "s"}, ou \in {"m", "km"}, iu \in {"", "m", "meter", "cm"}} \cup
   (* the output's metadata carries a fixed mask: plain payloads get exactly that mask *)
@@ -44,6 +44,11 @@ Cases ==
      g \in {"nogrid"}, f \in ScalarForms, pu \in {"", "m", "meter", "km", "cm", "s"}, ou \in {"m", "km"}, iu \in {"", "m", "km", "cm"}} \cup
   {[grid |-> g, form |-> f, pu |-> pu, ou |-> ou, iu |-> iu, om |-> "flex"] :
      g \in {"nogrid1"}, f \in VectorForms, pu \in {"", "km"}, ou \in {"m"}, iu \in {"", "cm"}}
+
+(* static links (published once, read any number of times): the second read is observed *)
+StaticSub(c) == \/ (c.grid = "nogrid" /\ c.form \in {"scalar", "array1"})
+                \/ (c.grid \in {"g23", "g32r"} /\ c.form \in {"shaped", "flat"} /\ c.pu \in {"", "km"})
+Cases == {c @@ [st |-> FALSE] : c \in Cases0} \cup {c @@ [st |-> TRUE] : c \in {d \in Cases0 : StaticSub(d)}}
 
 FormOK(c) ==
   CASE c.grid = "g23"     -> c.form \in {"shaped", "timeaxis", "flat", "list", "masked"}
